@@ -56,17 +56,27 @@ LEVEL_TEXT = ("Lean theorems over R about a model of beyond/frames whose formula
               "inverse; norms preserved; d/dt(R(t) r(t)) equals the velocity block for rate=(0,0,-theta') (HasDerivAt, all differentiable theta, r); "
               "A->B->C = A->C and A->B->A = 1 for the convert_to loop along every link history grown leaf by leaf (induction; any carrier with an "
               "associative product), instantiated for the model's orientConvert with paths from the C20 routing model. "
-              "The hand-written glue (which rot in which order, EOP units, series folds, centres, Frame.transform) is tied by differential correspondence "
-              "under three EOP configurations.")
-LEVEL_NOTE = ("R -> double gap and time-scale arithmetic (Date -> TT/UT1 centuries) are outside the theorems; agreement with independent GMST/ERA/precession "
-              "and IAU1980 vs IAU2010 < 0.1 arcsec are oracle-only; Lean kernel + propext/Classical.choice/Quot.sound; py2lean and harness trusted")
-TECHNIQUE = "Lean 4 proof (ring identities, HasDerivAt, induction over link histories, decide/norm_num on regenerated tables) + differential correspondence"
+              "History independence: the model of a process carries the memoizer of beyond/utils/memoize.py as a state machine (Memo.run) and the one date-dependent memo "
+              "the frames have (iau1980._nutation, keyed by the text of the date); Memo.sound_iff: a memoized function answers every history like the bare function iff its key "
+              "determines its value; session_history_independent: for every history of earlier conversions the result of a conversion is callPure = a function of (instant + EOP "
+              "record of the date, frame graph, the two frames) alone whenever the text of a date determines its TT instant; session_stale + Witness: otherwise the second call gets "
+              "the first call's nutation (the model follows the code there). "
+              "The hand-written glue (which rot in which order, EOP units, series folds, centres, Frame.transform, the memo) is tied by differential correspondence on HISTORIES of calls "
+              "under five EOP configurations sharing their instants.")
+LEVEL_NOTE = ("R -> double gap and time-scale arithmetic (Date -> TT/UT1 centuries; the model is given text + record offsets, reconciled to 2 ulp of the JD with Date.change_scale) are outside the theorems; "
+              "agreement with independent GMST/ERA/precession/nutation/polar motion and IAU1980 vs IAU2010 < 0.1 arcsec are oracle-only; the memo model covers Orientation.convert_to "
+              "(Frame.transform histories are compared call by call with the pure model, justified by session_history_independent on histories satisfying its hypothesis); "
+              "Lean kernel + propext/Classical.choice/Quot.sound; py2lean and harness trusted")
+TECHNIQUE = "Lean 4 proof (ring identities, HasDerivAt, induction over link histories and over call histories, decide/norm_num on regenerated tables) + differential correspondence on call sequences"
 TRUSTED = [
     "harness/py2lean.py: translates rot1/rot2/rot3, _precesion, _nutation arguments, _sideral (1980/2010), rate, _planets, X/Y/s polynomials, precesion_nutation, "
     "G50/GCRF constant matrices, TopocentricOrientation._m, _geodetic_to_cartesian into Generated/FrameFormulas{F,R}.lean on every run",
     "harness/props/C02.py extract: list of A_to_B methods of class Orientation (AST) -> Generated/OrientProviders.lean; orientHist from C20's extractor",
     "harness/props/C02.py Scenario: the specification of the frame graph and the independent numpy formulas (QSW/TNW axes, station axes, geodetic coordinates) the model inputs are derived from",
-    "lean/templates/Frames.tpl, Mat3.tpl, Model/Chain.lean (hand-written glue: provider products, EOP units, series folds, convert_to loop, centres, transform), tied by the correspondence run",
+    "harness/props/C02.py indep_record / pure_times: the EOP record of each of the five configurations from an own column parse of the IERS files and an own leap second table; "
+    "TT / UT1 of a date from its text and that record with python datetime arithmetic (microseconds)",
+    "lean/templates/Frames.tpl, Mat3.tpl, Model/Chain.lean, Model/Memo.lean (hand-written glue: provider products, EOP units, series folds, convert_to loop, centres, transform, memoizer, "
+    "which routes consult the _nutation memo), tied by the correspondence run",
     "np.linalg.inv is modelled by the exact inverse (adjugate/determinant, block form); numpy / libm double arithmetic vs R: tolerance 1e-10 relative on matrices",
     "Node routing model of C20 (Model/Node.lean) for the paths; C20.path_valid_chain",
 ]
@@ -77,31 +87,45 @@ ASSUMPTIONS = [
     "provider_isRotation + const_matrices_invertible + providers_match give this for the built-in providers, the assembly into EdgesOK for `edge` is not done in Lean",
     "cioMat_isRotation needs X^2+Y^2 < 1 (in 1973-2017: < 1e-5)",
     "velocity of body-centred frames (Moon, Sun) depends on the body's own velocity, a +-1 day difference quotient (C18): excluded from the velocity oracle",
+    "session_history_independent assumes KeyOK: dates with the same text have the same TT instant (KeyOK_of_text_determines_tt: dates given in TAI/TT/GPS/TDB, or in UTC under EOP sources that agree "
+    "on TAI-UTC); a Date is created under the configuration it is used under (a Date keeps the record it was created with, change_scale looks the new scale up again: C03)",
+    "a frame name means its latest registration (orbit2frame / create_station with a name already taken override it, with a warning): histories re-register names and expect the new specification",
 ]
 NOT_COVERED = [
-    "agreement of the Earth-fixed <-> inertial rotation with independently computed GMST82 / ERA / IAU-1976 precession: oracle only (independent numpy formulas)",
+    "agreement of the Earth-fixed <-> inertial rotation with independently computed GMST82 / equation of the equinoxes / ERA / IAU-1976 precession / 1980 nutation / polar motion: oracle only "
+    "(independent numpy formulas evaluated with the independently known EOP record of the current configuration)",
     "IAU-1980 chain vs IAU-2010 chain < 0.1 arcsec: oracle only (106- and ~3000-term series; no theorem)",
     "EOP file readers (Finals, Finals2000A, TaiUtc) on the real IERS files: oracle only (independent column parse)",
     "d(GMST)/dt vs the constant in rate(): not proved (DESIGN earth_rate_consistent); the oracle's finite-difference check covers it to 1e-3 m/s",
+    "iau1980.nutation / equinox / sideral with eop_correction=True (not used by the frame providers): oracle only; history dependent (known finding C02-nutation-memo-eop)",
 ]
 OPEN = [
     "transform_roundtrip for frames with different centres: only the algebraic core (affine_roundtrip) and the same-centre case are proved; "
     "the antisymmetry of Center.convert_to across two target orientations is checked by correspondence and oracle only",
     "EdgesOK for the model's concrete `edge` function is a hypothesis of orientConvert_compose/_inverse (see assumptions)",
     "velocity_is_derivative is proved for R(t) = rot3(-theta(t)) (the two Earth-rotation edges); the slow precession/nutation/polar-motion rates are omitted by the code by design (5e-5 m/s) and by the theorem",
+    "history independence without KeyOK is false for the code as it is (session_stale; UTC texts under EOP sources that disagree on TAI-UTC: 2e-10 rad through the frames, 2.4e-7 rad through "
+    "iau1980.nutation(date)): session_history_independent is the `_partial` statement, the unconditional one needs proposed_fixes/C02-nutation-memo-eop.diff",
+    "the memo machine (sessionRun) models Orientation.convert_to; which memo keys a whole Frame.transform touches (centre links, orbit-attached providers converting their reference) is not modelled — "
+    "irrelevant under KeyOK by the theorem, so Frame.transform histories are generated inside KeyOK",
 ]
-RULE = ("correspondence: nutation/CIO series folds on 25/8 dates (batched, tables parsed independently from beyond/frames/data), to_local / station matrix / geodetic closed forms; "
-        "Orientation.convert_to and Frame.transform on random ordered pairs of the frames of a SCENARIO: a specification (where each centre is, how each orientation is defined) "
-        "realised through the public API (create_station, solarsystem.get_frame, orbit2frame) while the model inputs (links, provider matrices, offsets) are derived from the "
-        "specification with independent numpy formulas, never from the objects the library built: 10 built-ins, station, equatorial station, Moon-centred, orbit-attached "
-        "inertial/QSW/TNW, chaser given relative to an orbit-attached frame (nested; inertial and TNW with that frame as parent), lunar orbiter given in the Moon frame (default "
-        "parent and QSW below the Moon frame), point given in a station frame, StateVector held in keplerian form; an exception of the implementation where the model converts is a "
-        "disagreement; random dates 1973-2017 (10 % beyond the tables), real IERS files / zero EOP / missing EOP; "
+RULE = ("correspondence: the real code is driven through HISTORIES of conversions in one process, nothing of the library reset in between: (A1) fresh instants under each of five EOP configurations "
+        "(real IERS files through SimpleEopDatabase / zero EOP / EOP missing with policy pass / a second registered database selected by eop.dbname / EopDb.get patched), (A2) the SAME instants under "
+        "several configurations in varying orders, each (configuration, instant) visited repeatedly, with fresh and re-used Date objects and repeated requests — UTC texts under the four configurations that agree "
+        "on TAI-UTC, TAI texts under all five, (A3) UTC texts under configurations that disagree on TAI-UTC as ONE request to the model carrying the _nutation memo (c02seq), (A4) the same names registered "
+        "again with another specification and the same instants again; the model is given the date as a pure function of (text of the date, EOP record of the configuration known independently of the library's "
+        "readers) and its own series at that TT century; Orientation.convert_to and Frame.transform on random ordered pairs of the frames of a SCENARIO: a specification (where each centre is, how each orientation "
+        "is defined) realised through the public API (create_station, solarsystem.get_frame, orbit2frame) while the model inputs (links, provider matrices, offsets) are derived from the specification with "
+        "independent numpy formulas: 10 built-ins, station, equatorial station, Moon-centred, orbit-attached inertial/QSW/TNW, nested chaser, lunar orbiter, point given in a station frame, StateVector held in "
+        "keplerian form; memoized table readers asked in varying order; nutation/CIO series at every instant as the library answers them inside the history; to_local / station matrix / geodetic closed forms; "
+        "an exception of the implementation where the model converts is a disagreement; dates 1973-2017 (15 % around the branch day MJD 50506, 10 % beyond the tables); "
         "rtol 1e-10 on matrices, 1e-9 relative on states; non-trivial = source != target. "
         "oracle: A->B->C vs A->C and A->B->A (1e-6 m, 1e-9 m/s + double resolution at the largest distance), orthonormality/det/block form, |r| preserved, "
-        "Richardson central difference (20/40 s) of the converted position vs converted velocity, GMST82/ERA/precession vs independent formulas, 1980 vs 2010 < 0.1 arcsec, "
-        "EOP reader vs independent parse, attached-frame independence of the StateVector form, and the meaning of 'attached to X' with hand-written expected values "
-        "(X is the origin both ways, X + d is seen at d / R d) for references given in Earth-centred, nested orbit-attached, station and Moon-centred frames; "
+        "Richardson central difference (20/40 s) of the converted position vs converted velocity; with the EOP record of the CURRENT configuration known independently (UT1 = text + ut1_utc, TT = text + tai_utc + 32.184 s): "
+        "date.eop = that record, PEF->TOD angle vs GMST82 + independent equation of the equinoxes (own 106-term series, kinematic terms from 1997-02-27) to 1 mas, TIRF->CIRF vs ERA to 1 mas, rate block vs lod, "
+        "polar motion 1980/2010 vs x, y, nutation (with and without dPsi/dEps), TEME equinox, precession, CIO X - dX / Y - dY equal across configurations — on fresh instants (matrix level) and on the same "
+        "instants under all five configurations in varying orders through StateVector.copy (family suffix :after-other-configuration); 1980 vs 2010 < 0.1 arcsec, EOP reader vs independent parse, attached-frame "
+        "independence of the StateVector form, the meaning of 'attached to X' with hand-written expected values before and after re-registration of the names; "
         "a conversion between connected frames that raises is a failing input")
 
 BUILTIN = ["EME2000", "MOD", "TOD", "TEME", "PEF", "ITRF", "TIRF", "CIRF", "GCRF", "G50"]
@@ -611,21 +635,24 @@ def wrap(x):
 
 
 _t51 = []
+_seen_instants = {}
 
 
-def earth_rotation_checks(out, mode, scale, d, s, date, rec, via, after=None):
+def earth_rotation_checks(out, mode, scale, d, s, date, rec, via):
     """The clause "the Earth-fixed <-> inertial rotation agrees with independently computed sidereal time, Earth-rotation angle and
     precession", for the date AT HAND: every expected value is computed here from the text of the date (d, s, scale) and the EOP record
     `rec` of the CURRENT configuration, known independently of the library (UT1 = UTC + ut1_utc, TT = UTC + tai_utc + 32.184 s) — never
     from date.eop, date.change_scale or a helper of beyond.frames.
     via = 'matrix': Orientation.convert_to;  via = 'state': StateVector.copy(frame=...) of three basis states (what a user calls).
-    after: the configurations under which this very instant was converted earlier in the process (None = first use of the instant)."""
+    The configurations under which this very text was converted earlier in the process are kept (`_seen_instants`) and named in the input."""
     import numpy as np
     from beyond.frames.frames import get_frame
     from beyond.orbits import StateVector
     if not _t51:
         _t51.extend(parse_tab51())
     t = pure_times(scale, d, s, rec)
+    after = [m for m in _seen_instants.get((scale, d, s), []) if m != mode]
+    _seen_instants.setdefault((scale, d, s), []).append(mode)
     hist = "" if not after else ":after-other-configuration"
     inp = {"eop": mode, "date": f"Date({d}, {s!r}, scale='{scale}')", "record": rec, "via": via}
     if after:
@@ -671,7 +698,28 @@ def earth_rotation_checks(out, mode, scale, d, s, date, rec, via, after=None):
         out.count(key=(name, mode, scale, d, s, via), kind=name.split(":")[0], **tag)
         if not np.abs(r - exp).max() <= tol + (0 if via == "matrix" else 1e-12):
             out.fail(name + hist, f"{a}->{b} differs from the matrix written here from the record / the text of the date", inp, observed=r.tolist(), expected=exp.tolist())
+    # the public iau1980.nutation(date) with its default eop_correction=True (what iau1980.equinox(date), sideral(date, model="apparent")
+    # and beyond/io/horizon.py read): the series plus the corrections dPsi, dEps of the record of the date
+    from beyond.frames import iau1980
+    exp = R1(-eps0) @ R3(dpsi + rec["dpsi"] * 1e-3 * ARCSEC) @ R1(eps0 + deps + rec["deps"] * 1e-3 * ARCSEC)
+    got = iau1980.nutation(date)
+    out.count(key=("nutcorr", mode, scale, d, s, via), kind="nutation-eop-correction", **tag)
+    if not np.abs(got - exp).max() <= 1e-9:
+        out.fail("nutation-eop-correction" + hist, "iau1980.nutation(date) (EOP corrections included) is not the 1980 series plus dPsi, dEps of the record of the date",
+                 inp, observed=got.tolist(), expected=exp.tolist())
+    # CIRF->GCRF: the third column of the CIO matrix is (X, Y, .) with X = X_series(TT) + dX of the record: X - dX must be the same number
+    # under every configuration that gives the text the same TT instant (it is the series alone)
+    r, _ = blocks("CIRF", "GCRF")
+    xs, ys = r[0, 2] - rec["dx"] * 1e-3 * ARCSEC, r[1, 2] - rec["dy"] * 1e-3 * ARCSEC
+    first = _xy_series.setdefault((scale, d, s, rec["tai_utc"]), (xs, ys, mode))
+    out.count(key=("ciooff", mode, scale, d, s, via), kind="cio-offsets-of-record", **tag)
+    if not (abs(xs - first[0]) <= 2e-12 and abs(ys - first[1]) <= 2e-12):
+        out.fail("cio-offsets-of-record" + hist, f"CIRF->GCRF: X - dX, Y - dY of the record differ from what they were at this instant under configuration '{first[2]}' (the series depends on TT only)",
+                 inp, observed=[float(xs), float(ys)], expected=[float(first[0]), float(first[1])])
     return t
+
+
+_xy_series = {}
 
 
 def history_oracle(out, rng, big):
@@ -685,7 +733,7 @@ def history_oracle(out, rng, big):
         insts = [(rng.randrange(MJD_MIN, MJD_MAX), round(rng.uniform(200, 86200), rng.choice([0, 3, 6]))) for _ in range(n_inst)]
         if rng.random() < 0.5:
             insts[0] = (rng.randrange(50506 - 1800, 50506), insts[0][1])
-        seen, held = {}, {}
+        held = {}
         for rnd in range(3 if big else 2):
             order = list(MODES)
             rng.shuffle(order)
@@ -701,9 +749,7 @@ def history_oracle(out, rng, big):
                     else:
                         date = held[(mode, i)] = Date(d, s, scale=scale)
                     rec = indep_record(mode, d + s_utc / 86400.0)
-                    after = [m for m in seen.get(i, []) if m != mode]
-                    earth_rotation_checks(out, mode, scale, d, s, date, rec, "state", after=after)
-                    seen.setdefault(i, []).append(mode)
+                    earth_rotation_checks(out, mode, scale, d, s, date, rec, "state")
     set_eop("real")
 
 
